@@ -317,6 +317,30 @@ func SaveFailureNow[S any](p *Prop[S], s S, v *V) {
 	WriteStats()
 }
 
+// RunOne executes one script outside rapid (native fuzz targets): a failure is
+// persisted like any other (fail file in -verif.out) and returned.
+func RunOne[S any](p *Prop[S], s S) *V {
+	register(p)
+	v := exec(p, s)
+	if v.fail != "" {
+		f := saveFailure(p, s, v)
+		noteFailure(p, v, f)
+	}
+	return v
+}
+
+// Fuzz makes a native coverage-guided fuzz target out of a property: the fuzz
+// input drives the property's own rapid generator.
+func Fuzz[S any](f *testing.F, p *Prop[S]) {
+	register(p)
+	f.Fuzz(rapid.MakeFuzz(func(rt *rapid.T) {
+		s := p.Gen(rt)
+		if v := RunOne(p, s); v.fail != "" {
+			rt.Fatalf("[%s] %s", v.sig, v.fail)
+		}
+	}))
+}
+
 // Check runs the property under rapid with N()*Scale cases.
 func Check[S any](t *testing.T, p *Prop[S]) {
 	register(p)
